@@ -10,6 +10,7 @@ package main
 
 import (
 	"bufio"
+	"bytes"
 	"encoding/json"
 	"errors"
 	"flag"
@@ -209,12 +210,54 @@ func (c *chunkSrc) Read(p []byte) (int, error) {
 // ---------------------------------------------------------------------------------------------
 // answers
 
+// ans is what one reader answered.  A returned string / byte slice is kept AS RETURNED (the very
+// value, no copy, no conversion) and rendered into a token only when the event is written: at once,
+// or - for every other history - when the whole history is over, so that a value a read handed
+// out must still be that value after the buffer was reset, drained and written again.
 type ans struct {
 	ok  bool
-	v   []int
 	rem int
 	pan int
 	e   string
+	t   string
+	u   uint64
+	s   string // ReadString / ReadLimitString result
+	bs  []byte // ReadN / Read(p) result (ZReadN is documented as aliasing: copied at once)
+}
+
+func (a ans) tok() []int {
+	if !a.ok {
+		return []int{}
+	}
+	switch a.t {
+	case "str":
+		return tr.Str(a.s)
+	case "raw":
+		return tr.Ints(a.bs)
+	}
+	return val{t: a.t, u: a.u}.tok()
+}
+
+// sink writes events at once or keeps them (unrendered) until the history is over.
+type sink struct {
+	w    *tr.W
+	lazy bool
+	q    []func() tr.E
+}
+
+func (k *sink) emit(f func() tr.E) {
+	if k.lazy {
+		k.q = append(k.q, f)
+		return
+	}
+	k.w.Emit(f())
+}
+
+func (k *sink) flush() {
+	for _, f := range k.q {
+		k.w.Emit(f())
+	}
+	k.q = nil
 }
 
 func errClass(err error) string {
@@ -237,9 +280,16 @@ func errClass(err error) string {
 
 func mk(t string, u uint64, b []byte, err error) ans {
 	if err != nil {
-		return ans{ok: false, v: []int{}, e: errClass(err)}
+		return ans{ok: false, e: errClass(err)}
 	}
-	return ans{ok: true, v: val{t: t, u: u, b: b}.tok()}
+	return ans{ok: true, t: t, u: u, bs: b}
+}
+
+func mkS(s string, err error) ans {
+	if err != nil {
+		return ans{ok: false, e: errClass(err)}
+	}
+	return ans{ok: true, t: "str", s: s}
 }
 
 func b2u(b bool) uint64 {
@@ -252,7 +302,7 @@ func b2u(b bool) uint64 {
 func guard(f func() ans) (r ans) {
 	defer func() {
 		if p := recover(); p != nil {
-			r = ans{ok: false, v: []int{}, pan: 1, e: fmt.Sprintf("panic: %v", p)}
+			r = ans{ok: false, pan: 1, e: fmt.Sprintf("panic: %v", p)}
 		}
 	}()
 	return f()
@@ -304,10 +354,10 @@ func readB(b *bytex.BufferX, a act) ans {
 		case "str":
 			if a.Lim >= 0 {
 				x, err := b.ReadLimitString(limArg(a.Lim))
-				return mk(a.T, 0, []byte(x), err)
+				return mkS(x, err)
 			}
 			x, err := b.ReadString()
-			return mk(a.T, 0, []byte(x), err)
+			return mkS(x, err)
 		case "raw":
 			switch a.Via {
 			case "n":
@@ -363,10 +413,10 @@ func readX(x *bytex.ReaderX, a act) ans {
 		case "str":
 			if a.Lim >= 0 {
 				v, err := x.ReadLimitString(limArg(a.Lim))
-				return mk(a.T, 0, []byte(v), err)
+				return mkS(v, err)
 			}
 			v, err := x.ReadString()
-			return mk(a.T, 0, []byte(v), err)
+			return mkS(v, err)
 		case "raw":
 			switch a.Via {
 			case "n":
@@ -386,7 +436,9 @@ func readX(x *bytex.ReaderX, a act) ans {
 	})
 }
 
-func write(b *bytex.BufferX, v val, lim int) (ok bool, pan int, msg string) {
+// write performs one typed write.  `in` is the byte slice handed to the library (raw) - a private
+// copy of v.b, so that the caller can see whether the call (or anything later) changed its input.
+func write(b *bytex.BufferX, v val, lim int, in []byte) (ok bool, pan int, msg string) {
 	defer func() {
 		if p := recover(); p != nil {
 			ok, pan, msg = false, 1, fmt.Sprintf("panic: %v", p)
@@ -428,7 +480,7 @@ func write(b *bytex.BufferX, v val, lim int) (ok bool, pan int, msg string) {
 		}
 		b.WriteString(string(v.b))
 	case "raw":
-		b.Write(v.b)
+		b.Write(in)
 	default:
 		tr.Fatal("write: unknown type %q", v.t)
 	}
@@ -446,7 +498,7 @@ type written struct {
 }
 
 type sess struct {
-	w     *tr.W
+	k     *sink
 	rng   *rand.Rand
 	arb   bool
 	W     *bytex.BufferX // the buffer written to
@@ -471,15 +523,21 @@ func newBuffer(rng *rand.Rand) *bytex.BufferX {
 	return bytex.NewBufferX()
 }
 
-func start(w *tr.W, rng *rand.Rand, src string) *sess {
-	s := &sess{w: w, rng: rng, W: newBuffer(rng), phase: "w"}
-	w.Emit(tr.E{"ev": "reset", "arb": false, "total": 0, "src": src})
+// start begins one buffer lifetime (one trace) on the BufferX W: a new one, or one that earlier
+// lifetimes of the same history wrote and read (`how` says how it was emptied).  The reset event
+// carries the Len() the buffer really has, which the trace spec requires to be 0.
+func start(k *sink, rng *rand.Rand, src string, W *bytex.BufferX, how string) *sess {
+	s := &sess{k: k, rng: rng, W: W, phase: "w"}
+	total := W.Len()
+	k.emit(func() tr.E { return tr.E{"ev": "reset", "arb": false, "total": total, "src": src, "how": how} })
 	return s
 }
 
-func startArb(w *tr.W, rng *rand.Rand, src string, data []byte) *sess {
-	s := &sess{w: w, rng: rng, arb: true, phase: "w", image: append([]byte{}, data...)}
-	w.Emit(tr.E{"ev": "reset", "arb": true, "total": len(data), "src": src, "bytes": tr.Ints(data)})
+func startArb(k *sink, rng *rand.Rand, src string, data []byte) *sess {
+	s := &sess{k: k, rng: rng, arb: true, phase: "w", image: append([]byte{}, data...)}
+	k.emit(func() tr.E {
+		return tr.E{"ev": "reset", "arb": true, "total": len(data), "src": src, "bytes": tr.Ints(data)}
+	})
 	return s
 }
 
@@ -492,12 +550,15 @@ func (s *sess) total() int {
 
 func (s *sess) doWrite(v val, lim int) {
 	before := s.W.Len()
-	ok, pan, msg := write(s.W, v, lim)
+	in := append([]byte{}, v.b...)
+	ok, pan, msg := write(s.W, v, lim, in)
 	after := s.W.Len()
 	n := after - before
-	s.w.Emit(tr.E{"ev": "call",
-		"a": tr.E{"op": "w", "t": v.t, "tok": v.tok(), "n": n, "lim": lim},
-		"r": tr.E{"ok": ok, "len": after, "pan": pan, "e": msg}})
+	s.k.emit(func() tr.E {
+		return tr.E{"ev": "call",
+			"a": tr.E{"op": "w", "t": v.t, "tok": v.tok(), "n": n, "lim": lim},
+			"r": tr.E{"ok": ok, "len": after, "pan": pan, "e": msg, "inmut": !bytes.Equal(in, v.b)}}
+	})
 	if ok {
 		s.items = append(s.items, written{v: v, start: before, n: n})
 	}
@@ -532,6 +593,7 @@ func (s *sess) doRewrite(kind string, pos int, p []byte, v uint32) {
 		tokv = tr.Ints(p)
 	}
 	pan, msg := 0, ""
+	in := append([]byte{}, p...)
 	func() {
 		defer func() {
 			if x := recover(); x != nil {
@@ -541,13 +603,16 @@ func (s *sess) doRewrite(kind string, pos int, p []byte, v uint32) {
 		if kind == "u32" {
 			t.ReWriteU32(pos, v)
 		} else {
-			t.ReWrite(pos, p)
+			t.ReWrite(pos, in)
 		}
 	}()
 	after := append([]byte{}, t.Bytes()...)
-	s.w.Emit(tr.E{"ev": "call",
-		"a": tr.E{"op": "rw", "kind": kind, "pos": pos, "plen": len(p), "p": tr.Ints(p), "tok": tokv},
-		"r": tr.E{"before": tr.Ints(before), "after": tr.Ints(after), "pan": pan, "e": msg}})
+	s.k.emit(func() tr.E {
+		return tr.E{"ev": "call",
+			"a": tr.E{"op": "rw", "kind": kind, "pos": pos, "plen": len(p), "p": tr.Ints(p), "tok": tokv},
+			"r": tr.E{"before": tr.Ints(before), "after": tr.Ints(after), "pan": pan, "e": msg,
+				"inmut": !bytes.Equal(in, p)}}
+	})
 	if s.phase == "r" {
 		s.midrw = true
 		s.xs = nil
@@ -604,13 +669,16 @@ func (s *sess) doOpen(c int, ks []int, self bool) {
 	if ks == nil {
 		ks = []int{}
 	}
-	s.w.Emit(tr.E{"ev": "call",
-		"a": tr.E{"op": "open", "c": c, "ks": ks, "self": self},
-		"r": tr.E{"len": s.b.Len(), "pan": 0}})
+	blen := s.b.Len()
+	s.k.emit(func() tr.E {
+		return tr.E{"ev": "call",
+			"a": tr.E{"op": "open", "c": c, "ks": ks, "self": self},
+			"r": tr.E{"len": blen, "pan": 0}}
+	})
 }
 
 func ansE(a ans, withRem bool) tr.E {
-	e := tr.E{"ok": a.ok, "v": a.v, "pan": a.pan, "e": a.e}
+	e := tr.E{"ok": a.ok, "v": a.tok(), "pan": a.pan, "e": a.e}
 	if withRem {
 		e["rem"] = a.rem
 	}
@@ -645,7 +713,7 @@ func (s *sess) doRead(a act) bool {
 	}
 	lenBefore := s.b.Len()
 	rb := readB(s.b, a)
-	xr := make([]tr.E, 0, len(s.xs))
+	xa := make([]ans, 0, len(s.xs))
 	if isVar(a.T) {
 		// ReaderX has no varint readers: the sources skip what the buffer reader consumed
 		if rb.ok {
@@ -658,12 +726,18 @@ func (s *sess) doRead(a act) bool {
 		}
 	} else {
 		for _, x := range s.xs {
-			xr = append(xr, ansE(readX(x, a), false))
+			xa = append(xa, readX(x, a))
 		}
 	}
-	s.w.Emit(tr.E{"ev": "call",
-		"a": tr.E{"op": "rd", "t": a.T, "lim": a.Lim, "n": a.N, "via": a.Via},
-		"r": tr.E{"b": ansE(rb, true), "x": xr}})
+	s.k.emit(func() tr.E {
+		xr := make([]tr.E, 0, len(xa))
+		for _, x := range xa {
+			xr = append(xr, ansE(x, false))
+		}
+		return tr.E{"ev": "call",
+			"a": tr.E{"op": "rd", "t": a.T, "lim": a.Lim, "n": a.N, "via": a.Via},
+			"r": tr.E{"b": ansE(rb, true), "x": xr}}
+	})
 	return rb.ok
 }
 
@@ -710,12 +784,20 @@ func planVal(a act) val {
 	return val{t: a.T, u: tb[a.Tok[0]%len(tb)]}
 }
 
-func runPlan(w *tr.W, rng *rand.Rand, name string, p []act) {
+// runPlan executes one plan as one lifetime of the buffer W.  The plan's last open, if it opens
+// everything, reads the written buffer itself (the others read copies).
+func runPlan(k *sink, rng *rand.Rand, name string, p []act, W *bytex.BufferX, how string) {
 	if len(p) == 0 || p[0].Op != "init" {
 		tr.Fatal("plan %s does not start with init", name)
 	}
-	s := start(w, rng, "plan:"+name)
-	for _, a := range p[1:] {
+	s := start(k, rng, "plan:"+name, W, how)
+	lastOpen := -1
+	for i, a := range p {
+		if a.Op == "open" {
+			lastOpen = i
+		}
+	}
+	for i, a := range p[1:] {
 		switch a.Op {
 		case "w":
 			if s.phase != "w" {
@@ -735,7 +817,7 @@ func runPlan(w *tr.W, rng *rand.Rand, name string, p []act) {
 			if s.midrw {
 				return
 			}
-			s.doOpen(a.C, a.Ks, false)
+			s.doOpen(a.C, a.Ks, i+1 == lastOpen)
 		case "rd":
 			if s.phase != "r" {
 				return
@@ -895,8 +977,34 @@ func randItem(rng *rand.Rand, big bool) (val, int) {
 }
 
 // round trip, every truncation point, rewrites, all chunkings
+// emptied makes the buffer ready for its next lifetime and says how: Reset(), or nothing at all
+// when the reads drained it (a read that hit the empty buffer has recycled it already).
+func emptied(rng *rand.Rand, W *bytex.BufferX) string {
+	if W.Len() > 0 || rng.Intn(2) == 0 {
+		W.Reset()
+		return "Reset"
+	}
+	return "drained"
+}
+
+// runHistory: one BufferX lives through 1..3 write / read-back cycles.  Every other history
+// renders its events only when it is over (see ans).
 func runHistory(w *tr.W, rng *rand.Rand, i int, maxItems int) {
-	s := start(w, rng, "hist")
+	k := &sink{w: w, lazy: i%2 == 1}
+	W := newBuffer(rng)
+	how := "new"
+	for life, nlife := 0, 1+rng.Intn(3); life < nlife; life++ {
+		m := maxItems
+		if life > 0 {
+			m = maxItems/2 + 1
+		}
+		lifetime(start(k, rng, "hist", W, how), rng, i, m, life)
+		how = emptied(rng, W)
+	}
+	k.flush()
+}
+
+func lifetime(s *sess, rng *rand.Rand, i int, maxItems int, life int) {
 	n := rng.Intn(maxItems) + 1
 	big := i%9 == 0
 	nrw := 0
@@ -938,6 +1046,11 @@ func runHistory(w *tr.W, rng *rand.Rand, i int, maxItems int) {
 		cs = append(cs, c)
 	}
 	sort.Ints(cs)
+	if life > 0 && len(cs) > 6 { // later cycles: a sample of the truncation points
+		rng.Shuffle(len(cs), func(a, b int) { cs[a], cs[b] = cs[b], cs[a] })
+		cs = cs[:6]
+		sort.Ints(cs)
+	}
 	// the full round trip on copies with several chunkings (limits sometimes refuse)
 	s.doOpen(total, randKs(rng, 3), false)
 	s.readBack(rng.Intn(3) == 0, -1)
@@ -978,7 +1091,7 @@ func arbBytes(rng *rand.Rand) []byte {
 		w := bytex.NewBufferX()
 		for k := rng.Intn(5) + 1; k > 0; k-- {
 			v, lim := randItem(rng, false)
-			write(w, v, lim)
+			write(w, v, lim, v.b)
 		}
 		b := append([]byte{}, w.Bytes()...)
 		for k := rng.Intn(3) + 1; k > 0 && len(b) > 0; k-- {
@@ -1003,9 +1116,11 @@ func le32(b []byte) uint32 {
 	return uint32(b[0]) | uint32(b[1])<<8 | uint32(b[2])<<16 | uint32(b[3])<<24
 }
 
-func runArb(w *tr.W, rng *rand.Rand) {
+func runArb(w *tr.W, rng *rand.Rand, i int) {
 	data := arbBytes(rng)
-	s := startArb(w, rng, "arb", data)
+	k := &sink{w: w, lazy: i%2 == 1}
+	defer k.flush()
+	s := startArb(k, rng, "arb", data)
 	for round := 0; round < 3; round++ {
 		c := len(data)
 		if round > 0 && c > 0 {
@@ -1043,16 +1158,27 @@ func main() {
 	if *plans != "" {
 		files, _ := filepath.Glob(filepath.Join(*plans, "*.ndjson"))
 		sort.Strings(files)
-		for _, f := range files {
-			runPlan(w, rng, filepath.Base(f), readPlan(f))
-			nplans++
+		// three plans share one BufferX (three lifetimes of one history)
+		for g := 0; g < len(files); g += 3 {
+			k := &sink{w: w, lazy: (g/3)%2 == 1}
+			W, how := newBuffer(rng), "new"
+			end := g + 3
+			if end > len(files) {
+				end = len(files)
+			}
+			for _, f := range files[g:end] {
+				runPlan(k, rng, filepath.Base(f), readPlan(f), W, how)
+				how = emptied(rng, W)
+				nplans++
+			}
+			k.flush()
 		}
 	}
 	for i := 0; i < *nhist; i++ {
 		runHistory(w, rng, i, *maxItems)
 	}
 	for i := 0; i < *narb; i++ {
-		runArb(w, rng)
+		runArb(w, rng, i)
 	}
 	w.Close()
 	fmt.Printf("plans=%d hist=%d arb=%d events=%d\n", nplans, *nhist, *narb, w.N())
